@@ -39,6 +39,9 @@ def check(run, model, tier):
     run.rule('DELEGATE.pubsub', 'running branch calls _subscribe/_publish; deferred branch posts the meta event; top() arms forward the payload fields')
     run.rule('KEYDEP.subscribed', 'the run-time "already subscribed" guard depends on this object\'s queue by identity')
     run.rule('SIGSET.reflection', 'ActiveObject.start_at sends REFLECTION only under an instrumented test')
+    run.rule('TRUTH.queue', 'a queue handed to the fabric is never tested for truth (an empty queue is falsy: the answer would depend on pending events)')
+    from sa import ident
+    ident.check_queue_truth(run, model, 'TRUTH.queue', classes=('ActiveFabricSource', 'ActiveObject'), floor=2)
     cg = callgraph(model)
     ao = model.cls('ActiveObject')
     fab = model.cls('ActiveFabricSource')
